@@ -115,3 +115,31 @@ func init() {
 	}
 	reg("(*github.com/cometbft/cometbft/proto/tendermint/crypto.PublicKey).String", pkString)
 }
+
+func init() {
+	// CometBFT validator-set construction / hashing: structural stubs (the
+	// hash only flows into the stored consensus state of the created client)
+	reg("(github.com/cometbft/cometbft/types.pb2tm).ValidatorUpdates", func(in *Interp, fn *ssa.Function, a []Value, pos token.Pos) Value {
+		ups := a[1].(Slice)
+		elemPtr := fn.Signature.Results().At(0).Type().(*types.Slice).Elem()
+		out := make([]Value, len(ups.V))
+		for i := range out {
+			p := new(Value)
+			*p = zero(elemPtr.(*types.Pointer).Elem())
+			out[i] = p
+		}
+		return tup(Slice{out}, Iface{})
+	})
+	reg("github.com/cometbft/cometbft/types.NewValidatorSet", func(in *Interp, fn *ssa.Function, a []Value, pos token.Pos) Value {
+		p := new(Value)
+		*p = zero(fn.Signature.Results().At(0).Type().(*types.Pointer).Elem())
+		return p
+	})
+	reg("(*github.com/cometbft/cometbft/types.ValidatorSet).Hash", func(in *Interp, fn *ssa.Function, a []Value, pos token.Pos) Value {
+		h := make([]byte, 32)
+		for i := range h {
+			h[i] = 0x42
+		}
+		return sliceOfBytes(h)
+	})
+}
